@@ -79,6 +79,44 @@ impl Tally {
     }
 }
 
+/// Violations found so far: per key the number of occurrences and the
+/// shortest history that shows it (so that the replay file is a minimal
+/// case of the explored space, not whichever shard reported first).
+#[derive(Default)]
+pub struct Found {
+    map: std::sync::Mutex<std::collections::BTreeMap<String, (u64, usize, Value)>>,
+}
+
+impl Found {
+    fn add<F: FnOnce() -> Value>(&self, key: &str, len: usize, case: F) {
+        let mut m = self.map.lock().unwrap();
+        match m.get_mut(key) {
+            Some(e) => {
+                e.0 += 1;
+                if len < e.1 {
+                    e.1 = len;
+                    e.2 = case();
+                }
+            }
+            None => {
+                if m.len() < 200 {
+                    m.insert(key.to_string(), (1, len, case()));
+                }
+            }
+        }
+    }
+    /// Hands everything to the runner (which writes the replay files).
+    pub fn flush(&self, ctx: &Ctx) {
+        let m = self.map.lock().unwrap();
+        for (key, (n, _, case)) in m.iter() {
+            ctx.violation(key, case.clone());
+            for _ in 1..*n {
+                ctx.violation(key, Value::Null);
+            }
+        }
+    }
+}
+
 pub struct StepInfo {
     pub class: String,
     pub viols: Vec<Viol>,
@@ -269,23 +307,29 @@ pub fn step(prop: Prop, cfg: &Config, parent: Option<&Node>, op: Option<&Op>, bu
     (Node { rops, results: run.results, cursors, refst, out: run.out, clean }, StepInfo { class, viols })
 }
 
-fn report(l: &mut Local, fam: &Family, cfg: &Config, node: &Node, info: &StepInfo) {
-    let ops: Vec<&Op> = node.rops.iter().map(|r| &r.op).collect();
+fn report(l: &mut Local, found: &Found, fam: &Family, cfg: &Config, node: &Node, info: &StepInfo) {
     l.tick();
-    l.outcome(&info.class, || case_json(fam.name, cfg, &ops, &node.results, None, ""));
+    l.outcome(&info.class, || {
+        let ops: Vec<&Op> = node.rops.iter().map(|r| &r.op).collect();
+        case_json(fam.name, cfg, &ops, &node.results, None, "")
+    });
     for v in &info.viols {
-        l.violation(&v.key, case_json(fam.name, cfg, &ops, &node.results, Some(&node.out), &v.detail));
+        found.add(&v.key, node.rops.len(), || {
+            let ops: Vec<&Op> = node.rops.iter().map(|r| &r.op).collect();
+            case_json(fam.name, cfg, &ops, &node.results, Some(&node.out), &v.detail)
+        });
     }
 }
 
-fn dfs(prop: Prop, fam: &Family, cfg: &Config, node: &Node, depth_left: usize, bufs: &mut Bufs, cnt: &mut Tally, l: &mut Local) {
+#[allow(clippy::too_many_arguments)]
+fn dfs(prop: Prop, fam: &Family, cfg: &Config, node: &Node, depth_left: usize, bufs: &mut Bufs, cnt: &mut Tally, l: &mut Local, found: &Found) {
     for op in &fam.alphabet {
         let (child, info) = step(prop, cfg, Some(node), Some(op), bufs, cnt);
         cnt.histories += 1;
-        report(l, fam, cfg, &child, &info);
+        report(l, found, fam, cfg, &child, &info);
         if depth_left > 1 {
             if child.clean {
-                dfs(prop, fam, cfg, &child, depth_left - 1, bufs, cnt, l);
+                dfs(prop, fam, cfg, &child, depth_left - 1, bufs, cnt, l, found);
             } else {
                 cnt.pruned += 1;
             }
@@ -295,7 +339,7 @@ fn dfs(prop: Prop, fam: &Family, cfg: &Config, node: &Node, depth_left: usize, b
 
 /// Explores one family exhaustively. Work is split by the first
 /// `split` operations of the history.
-pub fn explore_family(ctx: &Ctx, prop: Prop, fam: &Family, totals: &Counters) {
+pub fn explore_family(ctx: &Ctx, prop: Prop, fam: &Family, totals: &Counters, found: &Found) {
     let m = fam.alphabet.len();
     let split = if fam.depth >= 3 && m * m <= 4096 { 2 } else { 1 }.min(fam.depth);
     // Shards: (config index, first `split` operation indices).
@@ -318,20 +362,20 @@ pub fn explore_family(ctx: &Ctx, prop: Prop, fam: &Family, totals: &Counters) {
             let cfg = &fam.configs[*ci];
             let mut tally = Tally::default();
             let cnt = &mut tally;
-            explore_shard(prop, fam, cfg, first, split, bufs, cnt, l);
+            explore_shard(prop, fam, cfg, first, split, bufs, cnt, l, found);
             tally.merge_into(totals);
         });
     });
 }
 
 #[allow(clippy::too_many_arguments)]
-fn explore_shard(prop: Prop, fam: &Family, cfg: &Config, first: &[usize], split: usize, bufs: &mut Bufs, cnt: &mut Tally, l: &mut Local) {
+fn explore_shard(prop: Prop, fam: &Family, cfg: &Config, first: &[usize], split: usize, bufs: &mut Bufs, cnt: &mut Tally, l: &mut Local, found: &Found) {
     // Walk down to the shard's node. Nodes above it are reported by
     // exactly one shard: the one whose remaining indices are all 0.
     let (mut node, info) = step(prop, cfg, None, None, bufs, cnt);
     if first.iter().all(|x| *x == 0) {
         cnt.histories += 1;
-        report(l, fam, cfg, &node, &info);
+        report(l, found, fam, cfg, &node, &info);
     }
     if !node.clean {
         return;
@@ -340,7 +384,7 @@ fn explore_shard(prop: Prop, fam: &Family, cfg: &Config, first: &[usize], split:
         let (child, info) = step(prop, cfg, Some(&node), Some(&fam.alphabet[*oi]), bufs, cnt);
         if first[k + 1..].iter().all(|x| *x == 0) {
             cnt.histories += 1;
-            report(l, fam, cfg, &child, &info);
+            report(l, found, fam, cfg, &child, &info);
         }
         if !child.clean {
             if k + 1 < first.len() || fam.depth > split {
@@ -351,7 +395,7 @@ fn explore_shard(prop: Prop, fam: &Family, cfg: &Config, first: &[usize], split:
         node = child;
     }
     if fam.depth > split {
-        dfs(prop, fam, cfg, &node, fam.depth - split, bufs, cnt, l);
+        dfs(prop, fam, cfg, &node, fam.depth - split, bufs, cnt, l, found);
     }
 }
 
